@@ -1,5 +1,6 @@
 /-
-C09 — input chords fire for exactly the pressed key set, in any press order (chords v1: `defchords`).
+C09 — input chords fire for exactly the pressed key set, in any press order (chords v1: `defchords`;
+chords v2 is in Props/C09V2.lean).
 Property theorems only; helper lemmas are in Lemmas/Chord.lean, ChordDecomp.lean, ChordTick.lean,
 ChordLayout.lean. Everything is about the model functions of Model/Layout.lean (`handleChord`,
 `chordFold`, `chordRetain`, `decomposeChord`, `tickWt`, `tickMain`, `waitingIntoTap`, `dequeue`),
@@ -14,7 +15,6 @@ Vocabulary (Lemmas/Chord.lean), relative to a pending chord `w` of group `g`:
   `chordActive`     OR of the first key's mask and the participants' masks
 -/
 import KVerif.Lemmas.ChordLayout
-import KVerif.Model.ChordsV2
 namespace KVerif.C09
 open KVerif.L
 
@@ -416,126 +416,5 @@ theorem chord_v1_release_bound :
       have hne : c ≠ c0 := fun e => hc (by simp [e])
       apply ih _ kc c (fun hm => hc (List.mem_cons_of_mem _ hm))
       exact (releaseStates_spec true c0 sts .noEvent).2 _ h (by simp [St.coord, hne]) rfl
-
-/-! ## 6. Chords v2 (`defchordsv2`, Model/ChordsV2.lean): counterexamples
-
-The v2 model is validated differentially (key lists, custom events, and a digest of the private state
-of both `Layout` and `ChordsV2` after the run / per tick). The statement of C09 is FALSE of the v2
-code in three ways; each is shown on the model by a concrete witness (and on the real code by the
-harness, see KNOWN_FINDINGS.jsonl).  A general positive theorem for v2 is not proved:
-`chord_v2_exact_set` (every order of a defined chord's keys within its timeout activates it exactly
-once and consumes the participants) remains with the differential oracle. -/
-
-inductive In | p (y : Nat) | r (y : Nat) | t (n : Nat)
-
-def ticksV2 : Nat → LayoutV2 → Except Crash LayoutV2
-  | 0, s => .ok s
-  | n + 1, s => match s.tick with
-    | .error c => .error c
-    | .ok (s, _) => ticksV2 n s
-
-def stepsV2 : List In → LayoutV2 → Except Crash LayoutV2
-  | [], s => .ok s
-  | .p y :: rest, s => match s.event (.press (0, y)) with
-    | .error c => .error c
-    | .ok s => stepsV2 rest s
-  | .r y :: rest, s => match s.event (.release (0, y)) with
-    | .error c => .error c
-    | .ok s => stepsV2 rest s
-  | .t n :: rest, s => match ticksV2 n s with
-    | .error c => .error c
-    | .ok s => stepsV2 rest s
-
-def crashOf {α} : Except Crash α → Option Crash
-  | .error c => some c
-  | .ok _ => none
-
-/-- what is observed of a run: held key codes, lengths of the two input queues, and per active chord
-the keys still to be released -/
-def obsV2 : Except Crash LayoutV2 → Option (List Nat × Nat × Nat × List (List Nat))
-  | .error _ => none
-  | .ok s => some (s.lay.keycodes, s.lay.queue.length, ((s.chv2.map (·.queue.length)).getD 0),
-                   (s.chv2.map fun c => c.active.map (·.remaining)).getD [])
-
-/-- keys a b c mapped to themselves; `(defchordsv2 (a b) 1 50 all-released ())` -/
-def v2Chord : ChordV2 := { action := .keyCode 2, keys := [30, 48], pending := 50, disabledLayers := [], release := .onLastRelease }
-def v2Start : LayoutV2 :=
-  { lay := { cfg := { layers := [[((0, 30), .keyCode 30), ((0, 48), .keyCode 48), ((0, 46), .keyCode 46)]],
-                      srcKeys := [(30, .keyCode 30), (48, .keyCode 48), (46, .keyCode 46)] },
-             oneshot := { pauseInputProcessingDelay := 5 } },
-    chv2 := some { cfg := { mapping := [(30, [v2Chord]), (48, [v2Chord])], minIdle := 5 } } }
-
-def elevenTimes : List In := (List.replicate 11 [In.p 30, In.p 48, In.t 3]).flatten
-
-/-- the activation that does not fit is a panic, whatever the chord -/
-theorem chord_v2_capacity_general (active : List ActiveChord) (ach : ActiveChord) (h : ACTIVE_CHORDS_CAP ≤ active.length) :
-    pushActive active ach = .error (.indexOOB "active chords has room") := by
-  unfold pushActive
-  rw [if_neg (by omega)]
-
-/-- **chord_v2_capacity_crash_counterexample**.  `(defchordsv2 (a b) 1 50 all-released ())`, a and b
-pressed eleven times without a release: the eleventh activation finds the ten slots of
-`active_chords` taken and `assert!(overflow.is_ok(), "active chords has room")` panics. -/
-theorem chord_v2_capacity_crash_counterexample :
-    crashOf (stepsV2 elevenTimes v2Start) = some (.indexOOB "active chords has room") := by
-  decide +kernel
-
-/-- **chord_v2_stuck_counterexample** (C09 "released no later than the release of all participants" is
-false for v2).  The chord is activated, b is released, c (in no chord) is tapped — which starts the
-cool-down — and a is released one tick later, inside the cool-down: every physical key is up, both
-queues are empty, yet the chord's key (code 2) is still held, and the chord is still active. -/
-theorem chord_v2_stuck_counterexample :
-    obsV2 (stepsV2 [.p 30, .p 48, .t 5, .r 48, .t 5, .p 46, .t 1, .r 30, .t 1, .r 46, .t 60] v2Start) =
-      some ([2], 0, 0, [[30]]) := by
-  decide +kernel
-
-/-- **chord_v2_double_activation_counterexample** (C09 "performed once" is false for v2).  The second key
-arrives 49 ticks after the first (timeout 50): the chord is pushed by the loop of `process_presses`
-and once more by the block after the loop — two active chords, the action on two coordinates (the one queued layout event is the no-op press
-chords v2 forwards to trigger tap-hold decisions). -/
-theorem chord_v2_double_activation_counterexample :
-    obsV2 (stepsV2 [.p 30, .t 49, .p 48, .t 3] v2Start) = some ([2, 2], 1, 0, [[30, 48], [30, 48]]) := by
-  decide +kernel
-
-/-! ## 7. Chords v2: a positive fragment
-
-Full statement (NOT proved; it is false at the window edge, see
-`chord_v2_double_activation_counterexample`, and the general case with overlapping candidates and
-backtracking stays with the differential oracle):
-  `chord_v2_exact_set : every order of the presses of a defined, enabled chord's keys, queued within its
-   timeout with room in active_chords, makes process_presses push exactly one ActiveChord for it and
-   remove exactly those presses`. -/
-
-/-- **chord_v2_exact_set_partial** (two-key chord that is the only candidate of its first key).  In
-EITHER press order (the parser sorts the participant list, the queue is in press order), strictly
-inside the window (`since < pending`), with room in `active_chords`: `process_presses` activates the
-chord exactly once — one `ActiveChord` with the chord's action, status Unread, all keys still to be
-released for `all-released` / none for `first-release` — and removes both presses from the v2 queue,
-so neither key's own action is ever performed; two virtual coordinates are consumed. -/
-theorem chord_v2_exact_set_partial (s : ChV2) (layer : Nat) (ch : ChordV2) (x y sx sy : Nat)
-    (hxy : x ≠ y) (hkeys : ch.keys = [x, y] ∨ ch.keys = [y, x])
-    (hq : s.queue = [⟨.press (0, x), sx⟩, ⟨.press (0, y), sy⟩])
-    (hmap : s.cfg.get x = some [ch]) (hen : enabledOn layer ch = true)
-    (hroom : s.active.length < ACTIVE_CHORDS_CAP) (hsince : sx < ch.pending) (hp : ch.pending ≤ U16_MAX) :
-    processPresses s layer =
-      .ok { s with queue := [],
-                   active := s.active ++ [getActiveChord ch sx (nextCoordAfter s.nextCoord) false],
-                   ticksUntilChange := ch.pending - sx,
-                   nextCoord := nextCoordAfter (nextCoordAfter s.nextCoord) } := by
-  have hyx : y ≠ x := fun h => hxy h.symm
-  have hmin : minPending [ch] = ch.pending := by
-    simp only [minPending, List.foldl_cons, List.foldl_nil]; omega
-  have hne : ¬ (ch.pending - sx = 0) := by omega
-  unfold processPresses
-  simp only [hq, collectPresses, List.length_nil, List.length_cons, List.nil_append, List.cons_append]
-  have h16 : ¬ (0 ≥ SMOL_Q_LEN) := by decide
-  have h16' : ¬ (0 + 1 ≥ SMOL_Q_LEN) := by decide
-  simp only [h16, h16', if_false, List.head?_cons, hmap, Option.map_some, Option.getD_some]
-  rcases hkeys with hk | hk
-  all_goals
-    simp [ppLoop, ppStep, hk, hen, hxy, hyx, hmin, pushActive, hroom, hne]
-
-example : v2Chord.keys = [30, 48] ∧ (v2Start.chv2.map fun c => c.cfg.get 48) = some (some [v2Chord]) ∧
-    enabledOn 0 v2Chord = true := ⟨rfl, rfl, rfl⟩
 
 end KVerif.C09
